@@ -1,7 +1,7 @@
 #!/bin/bash
-# re-evaluate every seeded change against the current checks (scratch copies; /repo untouched)
+# re-evaluate every seeded change against the current checks (scratch copies under /dev/shm; /repo untouched)
+# usage: tools/seeded_all.sh [parallel streams, default 4]   - each stream runs its checks with VERIF_JOBS=4
 cd "$(dirname "$0")/.."
-for d in seeded/*/; do
-  n=$(basename $d); p=${n:0:3}
-  /venv/bin/python tools/seeded_eval.py $n $(pwd)/seeded/$n $p 2>&1 | tail -2 | cut -c1-260
-done
+P=${1:-4}
+ls -d seeded/*/ | xargs -n1 basename | VERIF_JOBS=${VERIF_JOBS:-4} xargs -P "$P" -I{} bash -c \
+  'n={}; p=${n:0:3}; /venv/bin/python tools/seeded_eval.py $n $(pwd)/seeded/$n $p 2>&1 | tail -2 | cut -c1-260 | tr "\n" " "; echo'
